@@ -85,6 +85,18 @@ Proof. exact truncate_panic_contract. Qed.
 Theorem c11_nil_string_contract : forall b s, step b (ONil 0%Z) = (b, (st_ok, nil_string)) /\ sstep s (ONil 0%Z) = (s, (st_ok, nil_string)).
 Proof. exact nil_string_contract. Qed.
 
+(* error identity: only io.EOF itself ends ReadFrom without error; any other error (one wrapping io.EOF included:
+   the harness scripts it as its own error number) comes back as it is, with what was read; likewise WriteTo *)
+Theorem c11_readfrom_error_as_is : forall s chunk e, (e <> 0)%Z -> (e <> 1)%Z -> (e <> -1)%Z ->
+  snd (sstep s (ReadFrom [(chunk, e)])) = (st_user e, [zn (length chunk)]) /\
+  un (fst (sstep s (ReadFrom [(chunk, e)]))) = un s ++ chunk.
+Proof. exact readfrom_error_as_is. Qed.
+Theorem c11_readfrom_eof_is_nil : forall s chunk, snd (sstep s (ReadFrom [(chunk, 1%Z)])) = (st_ok, [zn (length chunk)]).
+Proof. exact readfrom_eof_is_nil. Qed.
+Theorem c11_writeto_error_as_is : forall s m e, un s <> [] -> (0 <= m <= zn (length (un s)))%Z -> (e <> 0)%Z ->
+  snd (sstep s (WriteTo m e)) = (st_user e, m :: un s).
+Proof. exact writeto_error_as_is. Qed.
+
 (* all five paths of grow() (and the reslice-first variant the writes use) keep the unread bytes, the invariant and
    len = m + n *)
 Theorem c11_grow_keeps_unread : forall b n b1 m, Inv b -> grow b n = (b1, m) -> grow_post b b1 m n.
@@ -198,6 +210,9 @@ Print Assumptions c11_rewrite_panic_state.
 Print Assumptions c11_unread_after_invalidating_panic.
 Print Assumptions c11_truncate_panic_contract.
 Print Assumptions c11_nil_string_contract.
+Print Assumptions c11_readfrom_error_as_is.
+Print Assumptions c11_readfrom_eof_is_nil.
+Print Assumptions c11_writeto_error_as_is.
 Print Assumptions c11_grow_keeps_unread.
 Print Assumptions c11_grow_for_write_keeps_unread.
 Print Assumptions c11_rewrite_contract.
